@@ -25,7 +25,7 @@ Secs(e) == [j \in 1..Len(e.secs) |-> [r |-> e.secs[j][1], st |-> e.secs[j][2], s
 AsFile(e) == [name |-> <<>>, len |-> e.len, cls |-> e.cls, method |-> e.method, enc |-> e.enc]
 \* the block entry as the reader sees it + the writer's ghost fields
 ObsBlock(e) == [pos |-> e.pos, csize |-> e.csize, fsize |-> e.fsize, flags |-> SeqToSet(e.flags),
-                secs |-> Secs(e), method |-> e.method, single |-> IsSingleUnit(e.len),
+                secs |-> Secs(e), method |-> e.method, single |-> IsSingleUnit(e.len), crc |-> e.crc,
                 key |-> KeyFor(<<>>, "FIX_KEY" \in SeqToSet(e.flags), e.pos, e.fsize)]
 
 LossyApplied(e) == LossySel(e.method) /\ AnyShrunk(Secs(e))
@@ -86,7 +86,7 @@ FileDrift(e) ==
   ELSE LET f == AsFile(e)
            mf == WriterFlags(f, e.crc, Secs(e))
        IN IF mf # SeqToSet(e.flags) THEN "writer-flags-differ-from-model"
-          ELSE IF WriterCsize(f, Secs(e)) # e.csize THEN "writer-csize-differs-from-model"
+          ELSE IF WriterCsize(f, e.crc, Secs(e)) # e.csize THEN "writer-csize-differs-from-model"
           ELSE IF \A j \in 1..4 : Exact(e, e.reads[j]) /\ ReadBlock(ObsBlock(e), <<>>) # "exact"
                THEN "model-predicts-failure-but-code-succeeds"
           ELSE "none"
